@@ -27,14 +27,11 @@ Lemma gap_to_jan1_is_error_lemma :
   read_multi (-99)%float [] 1981 2 [(1981, 1, wr 1); (1981, 2, wr 2); (1982, 1, wr 3)] = None.
 Proof. vm_compute. reflexivity. Qed.
 
-(* ... but the test compares MaxYearDays with the length of the year BEFORE the new record's year, not with the stored
-   year: a series that jumps from 31 Dec 1981 to 1 Jan 1983 (both years 365 days) is still accepted, the year 1982 is
-   simply absent from the store (LoadYear's error for it is dropped: F9) *)
+(* F33 repaired: ... and so is a series that jumps over a whole year (31 Dec 1981 -> 1 Jan 1983, both years 365 days) *)
 Definition full_year (y : Z) : list (mrec float) := map (fun d => (y, d, wr 1)) (zrange 1 (Z.to_nat (ylen y))).
-Lemma missing_year_is_error_refuted_lemma :
-  exists st, read_multi (-99)%float [] 1981 3 (full_year 1981 ++ full_year 1983) = Some st /\
-             s_jar (slot_at st 0) = 1981 /\ s_jar (slot_at st 1) = 1983 /\ find_year st 1982 = None.
-Proof. eexists. split; [vm_compute; reflexivity|]. repeat split; vm_compute; reflexivity. Qed.
+Lemma missing_year_is_error_lemma :
+  read_multi (-99)%float [] 1981 3 (full_year 1981 ++ full_year 1983) = None.
+Proof. vm_compute. reflexivity. Qed.
 
 (* per-year layout: the file of 1981 stops after 3 January, no file for 1982: same outcome, the
    errors of WetterK/LoadYear are dropped *)
